@@ -105,6 +105,7 @@ newPeers:
 	oldPeers := c.peers
 	c.peers = newPeers
 
+	sessionsClosed := false
 	for _, p := range oldPeers {
 		if p == nil {
 			continue
@@ -115,6 +116,7 @@ newPeers:
 			if err := p.session.Close(); err != nil {
 				level.Error(l).Log("op", "setConfig", "error", err, "peer", p.id, "msg", "failed to shut down BGP session")
 			}
+			sessionsClosed = true
 		}
 		level.Debug(l).Log("event", "peerRemoved", "peer", p.id, "reason", "removedFromConfig", "msg", "peer deconfigured, BGP session closed")
 	}
@@ -128,7 +130,7 @@ newPeers:
 		return errors.Join(err, errors.New("failed to sync extra info"))
 	}
 
-	return c.syncPeers(l)
+	return c.syncPeers(l, sessionsClosed)
 }
 
 func (c *bgpController) SetEventCallback(callback func(interface{})) {
@@ -206,11 +208,10 @@ func (c *bgpController) ShouldAnnounce(l log.Logger, name string, _ []net.IP, po
 
 // Called when either the peer list or node labels have changed,
 // implying that the set of running BGP sessions may need tweaking.
-func (c *bgpController) syncPeers(l log.Logger) error {
-	var (
-		errs          int
-		needUpdateAds bool
-	)
+// needUpdateAds tells that the caller already closed some sessions, so
+// the advertisement state must be resynced even if no session comes up.
+func (c *bgpController) syncPeers(l log.Logger, needUpdateAds bool) error {
+	var errs int
 	for _, p := range c.peers {
 		// First, determine if the peering should be active for this
 		// node.
@@ -233,6 +234,7 @@ func (c *bgpController) syncPeers(l log.Logger) error {
 				level.Error(l).Log("op", "syncPeers", "error", err, "peer", p.id, "msg", "failed to shut down BGP session")
 			}
 			p.session = nil
+			needUpdateAds = true
 		} else if p.session == nil && shouldRun {
 			// Session doesn't exist, but should be running. Create
 			// it.
@@ -280,7 +282,8 @@ func (c *bgpController) syncPeers(l log.Logger) error {
 		}
 	}
 	if needUpdateAds {
-		// Some new sessions came up, resync advertisement state.
+		// Some sessions came up or went away, resync advertisement
+		// state (including the per-service set of advertising peers).
 		if err := c.updateAds(); err != nil {
 			level.Error(l).Log("op", "updateAds", "error", err, "msg", "failed to update BGP advertisements")
 			return err
@@ -490,7 +493,7 @@ func (c *bgpController) SetNode(l log.Logger, node *v1.Node) error {
 	}
 	c.nodeLabels = ns
 	level.Info(l).Log("event", "nodeLabelsChanged", "msg", "Node labels changed, resyncing BGP peers")
-	return c.syncPeers(l)
+	return c.syncPeers(l, false)
 }
 
 // Create a new 'bgp.SessionManager' of type 'bgpType'.
